@@ -23,7 +23,8 @@ RULE = ("Hypothesis draws a start state (history of 0-6 calls over 3 pids / 2 co
         "intact in both. Non-trivial = start state already holds the content or the pid, or a "
         "non-default algorithm / non-canonical spelling; distinct key = (start-state shape, pid "
         "bound?, content present?, validation form, canonical algorithm)."
-        ' Validation forms include the true digest of the OTHER content of the case (often under the store algorithm, i.e. the cid of another object).')
+        ' Validation forms include the true digest of the OTHER content of the case (often under the store algorithm, i.e. the cid of another object).'
+        ' Round 9: wrong sizes are also SMALLER than the content (by one byte, or a third of it); when size and checksum are both wrong the two procedures must still report the same kind of mismatch.')
 ASSUMPTIONS = ["size-only validation with a WRONG size is excluded: the stepwise route cannot express it "
                "(delete_if_invalid_object requires a checksum)"]
 PIDS = ["pa", "pb", "pc"]
